@@ -495,6 +495,46 @@ func (s *srvConn) noteSettings(b []byte) {
 	}
 }
 
+// settle waits until the counters have been stable for a while and summarises what the server wrote.
+func (s *srvConn) settle() string {
+	deadline := time.Now().Add(8 * time.Second)
+	var last [4]int64
+	stable := 0
+	for time.Now().Before(deadline) && stable < 40 {
+		cur := [4]int64{http2.VerifLoopTopN.Load(), http2.VerifQueuedN.Load(), http2.VerifForwardedN.Load(), s.enteredN()}
+		s.outBuf = append(s.outBuf, s.mc.out.take()...)
+		if cur == last && (s.mc.in.idle() || s.isServed()) {
+			stable++
+		} else {
+			stable = 0
+		}
+		last = cur
+		time.Sleep(100 * time.Microsecond)
+	}
+	frames, rest := parseFrames(s.outBuf)
+	s.outBuf = rest
+	s.frames += int64(len(frames))
+	counts := map[string]int{}
+	for _, fr := range frames {
+		item := s.fmtFrame(fr)
+		counts[item[:strings.IndexAny(item+"(", "(")]]++
+	}
+	s.mu.Lock()
+	nd := len(s.dispatch)
+	s.dispatch = nil
+	s.mu.Unlock()
+	panicked := 0
+	s.logMu.Lock()
+	for _, l := range s.logLines {
+		if strings.Contains(l, "panicked") {
+			panicked++
+		}
+	}
+	s.logLines = nil
+	s.logMu.Unlock()
+	return fmt.Sprintf("settled frames=%v dispatches=%d panicked=%d served=%v", counts, nd, panicked, s.isServed())
+}
+
 func (s *srvConn) gauges() string {
 	return fmt.Sprintf("strms=%d open=%d ring=%d held=%d", http2.VerifStrms.Load(), http2.VerifOpen.Load(), http2.VerifRing.Load(), http2.VerifHeld.Load())
 }
@@ -564,6 +604,31 @@ func (r *runner) runSrv(f []string) string {
 		s.dones++
 		ch <- sp
 		return s.quiesce()
+	case "burst": // bytes written without waiting: real interleavings of the three loops and the handlers
+		if len(f) != 4 {
+			return "bad-op"
+		}
+		b, ok := unhex(f[3])
+		if !ok {
+			return "bad-op"
+		}
+		s.noteSettings(b)
+		s.mc.in.write(b)
+		return "mon burst"
+	case "doneall": // every parked handler is released at once, each completing on its own goroutine
+		s.mu.Lock()
+		n := 0
+		for sid, ch := range s.parked {
+			sp, _ := parseResp(sid, f[3:])
+			ch <- sp
+			delete(s.parked, sid)
+			n++
+		}
+		s.mu.Unlock()
+		s.dones += int64(n)
+		return fmt.Sprintf("mon doneall %d", n)
+	case "settle": // wait until nothing moves any more; the outputs are summarised, not compared
+		return "mon " + s.settle()
 	case "cut":
 		s.mc.in.close()
 		return s.quiesce()
